@@ -332,6 +332,7 @@ type Factory struct {
 	Asm    *consensus.BlockAssembler
 	Blocks map[common.Hash]*types.Block
 	Kids   map[common.Hash][]common.Hash
+	GasLimitOverride uint64 // when non-zero the next Mine uses this header gas limit
 }
 
 type factoryLoader struct{ db *store.ChainDatabase }
@@ -381,6 +382,9 @@ func (f *Factory) Mine(d int, parent *types.Block, ts uint32, txs types.Transact
 			return
 		}
 		header.Time = ts
+		if f.GasLimitOverride != 0 {
+			header.GasLimit = f.GasLimitOverride
+		}
 		blk, invalid, err = f.Asm.MineBlock(header, txs, 10000)
 		if err != nil {
 			return
